@@ -1412,6 +1412,160 @@ def _dict_zip_to_literal(tree):
     return n
 
 
+def _flag_loops_to_any(tree):
+    """`f = False; for v in it: if cond: f = True[; break]`  ->  `f = any(cond for v in it)` (with break: short-circuits like the
+    generator form) / `f = any([cond for v in it])` (without break: every element is evaluated, like the list form); and the dual
+    with True/False swapped and the condition negated -> all(...).  The loop may do nothing else."""
+    n = 0
+    for block in _blocks(tree):
+        i = 0
+        while i + 1 < len(block):
+            a, l = block[i], block[i + 1]
+            if isinstance(a, ast.Assign) and len(a.targets) == 1 and isinstance(a.targets[0], ast.Name) and isinstance(a.value, ast.Constant) \
+                    and isinstance(a.value.value, bool) and isinstance(l, ast.For) and not l.orelse and len(l.body) == 1 \
+                    and isinstance(l.body[0], ast.If) and not l.body[0].orelse:
+                flag, init = a.targets[0].id, a.value.value
+                iff = l.body[0]
+                body = iff.body
+                sets = [x for x in body if isinstance(x, ast.Assign) and len(x.targets) == 1 and isinstance(x.targets[0], ast.Name)
+                        and x.targets[0].id == flag and isinstance(x.value, ast.Constant) and x.value.value is (not init)]
+                brk = [x for x in body if isinstance(x, ast.Break)]
+                if len(sets) == 1 and len(body) == 1 + len(brk) and len(brk) <= 1 and (not brk or body[-1] is brk[0]) \
+                        and not any(isinstance(x, ast.Name) and x.id == flag for x in ast.walk(iff.test)) \
+                        and not any(isinstance(x, ast.Name) and x.id == flag for x in ast.walk(l.iter)):
+                    cond = iff.test if init is False else ast.UnaryOp(op=ast.Not(), operand=iff.test)
+                    gen = ast.comprehension(target=l.target, iter=l.iter, ifs=[], is_async=0)
+                    inner = ast.GeneratorExp(elt=cond, generators=[gen]) if brk else ast.ListComp(elt=cond, generators=[gen])
+                    call = ast.Call(func=ast.Name(id="any" if init is False else "all", ctx=ast.Load()), args=[inner], keywords=[])
+                    new = ast.copy_location(ast.Assign(targets=a.targets, value=call, lineno=a.lineno), a)
+                    block[i:i + 2] = [new]
+                    n += 1
+                    continue
+            i += 1
+    return n
+
+
+def _itemgetter_calls(tree):
+    """g = itemgetter(K) (bound once in a function) ... g(E)  ->  E[K];  itemgetter(K)(E) -> E[K];  key=itemgetter(K) stays"""
+    n = 0
+    for fn in [x for x in ast.walk(tree) if isinstance(x, (ast.FunctionDef, ast.AsyncFunctionDef))]:
+        cnt, getters = {}, {}
+        for x in ast.walk(fn):
+            if isinstance(x, ast.Name) and isinstance(x.ctx, (ast.Store, ast.Del)):
+                cnt[x.id] = cnt.get(x.id, 0) + 1
+            if isinstance(x, ast.Assign) and len(x.targets) == 1 and isinstance(x.targets[0], ast.Name) and isinstance(x.value, ast.Call) \
+                    and ast.unparse(x.value.func) in ("itemgetter", "operator.itemgetter") and len(x.value.args) == 1 and not x.value.keywords:
+                getters[x.targets[0].id] = (x, x.value.args[0])
+        getters = {k: v for k, v in getters.items() if cnt.get(k) == 1}
+        used_as_value = set()
+
+        class R(ast.NodeTransformer):
+            def visit_Call(self, node):
+                nonlocal n
+                node = self.generic_visit(node)
+                f = node.func
+                if isinstance(f, ast.Name) and f.id in getters and len(node.args) == 1 and not node.keywords:
+                    n += 1
+                    return ast.copy_location(ast.Subscript(value=node.args[0], slice=_dc(getters[f.id][1]), ctx=ast.Load()), node)
+                if isinstance(f, ast.Call) and ast.unparse(f.func) in ("itemgetter", "operator.itemgetter") and len(f.args) == 1 \
+                        and len(node.args) == 1 and not node.keywords and not f.keywords:
+                    n += 1
+                    return ast.copy_location(ast.Subscript(value=node.args[0], slice=f.args[0], ctx=ast.Load()), node)
+                return node
+        R().visit(fn)
+        # drop the binding when the getter is no longer referenced
+        for name, (st, _) in getters.items():
+            if not any(isinstance(x, ast.Name) and x.id == name and isinstance(x.ctx, ast.Load) for x in ast.walk(fn)):
+                for block in _blocks(fn):
+                    if st in block:
+                        block.remove(st)
+    return n
+
+
+def _iter_while_to_for(tree):
+    """S = object(); it = iter(X); v = next(it, S); while v is not S: BODY; v = next(it, S)   ->   for v in X: BODY
+    (BODY without continue/break; `it` and `S` used nowhere else)"""
+    n = 0
+    for fn in [x for x in ast.walk(tree) if isinstance(x, (ast.FunctionDef, ast.AsyncFunctionDef))]:
+        for block in _blocks(fn):
+            i = 0
+            while i < len(block):
+                w = block[i]
+                if isinstance(w, ast.While) and not w.orelse and isinstance(w.test, ast.Compare) and len(w.test.ops) == 1 \
+                        and isinstance(w.test.ops[0], ast.IsNot) and isinstance(w.test.left, ast.Name) and isinstance(w.test.comparators[0], ast.Name) \
+                        and w.body and i >= 2:
+                    v, sent = w.test.left.id, w.test.comparators[0].id
+                    last = w.body[-1]
+
+                    def is_next(st, v=v, sent=sent):
+                        return isinstance(st, ast.Assign) and len(st.targets) == 1 and isinstance(st.targets[0], ast.Name) and st.targets[0].id == v \
+                            and isinstance(st.value, ast.Call) and isinstance(st.value.func, ast.Name) and st.value.func.id == "next" \
+                            and len(st.value.args) == 2 and isinstance(st.value.args[0], ast.Name) and isinstance(st.value.args[1], ast.Name) \
+                            and st.value.args[1].id == sent
+                    first = block[i - 1]
+                    if is_next(last) and is_next(first) and last.value.args[0].id == first.value.args[0].id:
+                        itn = first.value.args[0].id
+                        # it = iter(X) and S = object() among the statements just before
+                        pre = block[max(0, i - 3):i - 1]
+                        itdef = [p_ for p_ in pre if isinstance(p_, ast.Assign) and isinstance(p_.targets[0], ast.Name) and p_.targets[0].id == itn
+                                 and isinstance(p_.value, ast.Call) and isinstance(p_.value.func, ast.Name) and p_.value.func.id == "iter" and len(p_.value.args) == 1]
+                        sdef = [p_ for p_ in pre if isinstance(p_, ast.Assign) and isinstance(p_.targets[0], ast.Name) and p_.targets[0].id == sent
+                                and isinstance(p_.value, ast.Call) and isinstance(p_.value.func, ast.Name) and p_.value.func.id == "object" and not p_.value.args]
+                        body = w.body[:-1]
+                        uses = [x for x in ast.walk(fn) if isinstance(x, ast.Name) and x.id in (itn, sent)]
+                        inner_uses = sum(1 for b in body for x in ast.walk(b) if isinstance(x, ast.Name) and x.id in (itn, sent, ))
+                        clean = not any(isinstance(x, (ast.Break, ast.Continue)) for b in body for x in ast.walk(b)) \
+                            and not any(isinstance(x, ast.Name) and x.id == v and isinstance(x.ctx, ast.Store) for b in body for x in ast.walk(b))
+                        # it: def + 2 next() ; sentinel: def + 2 next() + 1 test
+                        if len(itdef) == 1 and len(sdef) == 1 and inner_uses == 0 and clean and len(uses) == 3 + 4:
+                            new = ast.copy_location(ast.For(target=ast.Name(id=v, ctx=ast.Store()), iter=itdef[0].value.args[0], body=body or [ast.Pass()], orelse=[]), w)
+                            for p_ in (itdef[0], sdef[0], first):
+                                block.remove(p_)
+                            block[block.index(w)] = new
+                            n += 1
+                            i = 0
+                            continue
+                i += 1
+    return n
+
+
+def _explicit_minmax(tree):
+    """if A > B: T = A  else: T = B   ->   T = max(B, A)      (max returns its first argument on a tie, as the else branch does)
+       if A > B: T = A   with T being B ->   T = max(T, A)       and the duals with < / min.  A, B pure."""
+    n = 0
+    for block in _blocks(tree):
+        for i, st in enumerate(block):
+            if not (isinstance(st, ast.If) and isinstance(st.test, ast.Compare) and len(st.test.ops) == 1 and len(st.body) == 1
+                    and isinstance(st.body[0], ast.Assign) and len(st.body[0].targets) == 1):
+                continue
+            op = st.test.ops[0]
+            if not isinstance(op, (ast.Gt, ast.Lt)):
+                continue
+            A, B = st.test.left, st.test.comparators[0]
+            if not (is_pure(A) and is_pure(B)):
+                continue
+            tgt, val = st.body[0].targets[0], st.body[0].value
+            dA, dB, dV = ast.dump(A), ast.dump(B), ast.dump(val)
+            # which operand is stored when the test holds?  `A > B: T = A` is max; `A < B: T = A` is min
+            if dV == dA:
+                fn_, first, second = ("max" if isinstance(op, ast.Gt) else "min"), B, A
+            elif dV == dB:
+                fn_, first, second = ("min" if isinstance(op, ast.Gt) else "max"), A, B
+            else:
+                continue
+            tload = _as_load_copy(tgt)
+            if st.orelse:
+                if not (len(st.orelse) == 1 and isinstance(st.orelse[0], ast.Assign) and len(st.orelse[0].targets) == 1
+                        and ast.dump(_as_load_copy(st.orelse[0].targets[0])) == ast.dump(tload) and ast.dump(st.orelse[0].value) == ast.dump(first)):
+                    continue
+            elif ast.dump(tload) != ast.dump(first):
+                continue
+            call = ast.Call(func=ast.Name(id=fn_, ctx=ast.Load()), args=[_dc(first), _dc(second)], keywords=[])
+            block[i] = ast.copy_location(ast.Assign(targets=[tgt], value=call, lineno=st.lineno), st)
+            n += 1
+    return n
+
+
 def normalize_module(tree):
     """in-place; returns a dict of counters (how many constructs were normalised) for the evidence"""
     repo_sigs = {}
@@ -1425,6 +1579,10 @@ def normalize_module(tree):
     out = dict(kwargs_to_positional=_kwargs_to_positional(tree, repo_sigs), tuple_assignments_split=_split_tuple_assignments(tree),
                update_to_item=_update_to_item_assignment(tree), local_defs_to_lambdas=_local_defs_to_lambdas(tree),
                dict_zip_to_literal=_dict_zip_to_literal(tree))
+    out["flag_loops_to_any"] = _flag_loops_to_any(tree)
+    out["explicit_minmax"] = _explicit_minmax(tree)
+    out["itemgetter_calls"] = _itemgetter_calls(tree)
+    out["iter_while_to_for"] = _iter_while_to_for(tree)
     _StarLists.n = 0
     _StarLists().visit(tree)
     out["star_lists"] = _StarLists.n
